@@ -115,6 +115,21 @@ UCanon(e) ==
                 /\ \A x, y \in V : f[x] = f[y] => x = y
                 /\ Rename(e.w, f) = e.r THEN {} ELSE {"canon-map"})
 
+\* ---- k = "canonchain": canonicalize called on several expressions in turn, threading the returned (var_map, counter)
+\*      into the next call.  e.ws / e.rs = inputs / results, e.map = <<old name, new name>> pairs of the FINAL var_map.
+\*      One consistent renaming must explain every result: injective on all variables of the chain, and
+\*      Rename(ws[i], map) = rs[i] for every i (so a later call may neither reuse a name nor disturb earlier entries). ----
+UCanonChain(e) ==
+  IF e.out # "ok" THEN {"outcome"}
+  ELSE LET f == MapFn(e.map)
+           n == Len(e.ws)
+           V == UNION {FreeVars(e.ws[i]) : i \in 1..n}
+       IN IF /\ Len(e.rs) = n
+             /\ V \subseteq DOMAIN f
+             /\ \A x, y \in V : f[x] = f[y] => x = y
+             /\ \A i \in 1..n : Rename(e.ws[i], f) = e.rs[i]
+          THEN {} ELSE {"canon-chain"}
+
 \* ---- k = "alpha": identical(a, b) may answer TRUE only for alpha-equivalent arguments ----
 UAlpha(e) ==
   IF e.out # "ok" THEN {"outcome"}
@@ -298,6 +313,19 @@ UZ3Abs(e, A) ==
               fr == Flat(e.r)
           IN IF \A a \in A : EvalF(fr, a) = Z3Apply(e.zop, e.ints, [i \in 1..n |-> EvalF(fa[i], a)] \o <<>>)
              THEN {} ELSE {"z3-meaning"}
+
+\* ---- k = "fprt" (C09): Z3 round trip of a floating-point (or Boolean-over-FP) expression.  FP arithmetic is outside
+\*      Term.tla, but the round trip must not change WHICH rounding modes / target sorts the expression uses: the bag of
+\*      non-empty name slots of the operator nodes (rounding-mode and sort names; variables excluded) is preserved. ----
+VarLeaves == {"BVS","BoolS","FPS","StringS"}
+NameBag(t) ==
+  LET f == Flat(t)
+      I == {i \in 1..Len(f) : f[i][1] \notin VarLeaves /\ f[i][2] # ""}
+      S == {f[i][2] : i \in I}
+  IN [nm \in S |-> Cardinality({i \in I : f[i][2] = nm})]
+UFpRoundTrip(e) ==
+  IF e.out # "ok" THEN {"outcome"}
+  ELSE IF NameBag(e.w) = NameBag(e.r) THEN {} ELSE {"rounding-mode-changed"}
 
 \* ---- k = "outcome": a call that must not fail (C09: simplify on an expression the Z3 backend translates) ----
 UOutcome(e) == IF e.out # "ok" THEN {"outcome"} ELSE {}
